@@ -7,7 +7,10 @@
                                                       replaced, corrupted in place)
     dumpall   DumpAll(opts) with $PGDATA = dir        on valid clusters and on trees whose global/1262 is absent / empty;
                                                       SPEC = DumpDataDir's model on the same tree (C12)
-    analyze   AnalyzeTOAST(dir, db)                   on crafted clusters whose pg_class holds relations NAMED so that bytes
+    analyze   AnalyzeTOAST(dir, db)                   on crafted clusters whose pg_class holds a table with a real
+                                                      reltoastrelid (offset 108: never seen by the code, tag
+                                                      obs=reltoastrelid-ignored when its TOAST relation has chunks and
+                                                      nothing is reported) and relations NAMED so that bytes
                                                       44..47 of relname spell a TOAST relation id (the code reads its
                                                       "reltoastrelid" there), with valid / empty / damaged / missing TOAST
                                                       files; SPEC = Spec.Toast.stats of the relations the code reaches (C08)
@@ -130,6 +133,11 @@ def genAnalyze (size : Nat) : Gen AnalyzeCase := do
     | _ =>
       let rel ← Gen.Toast.genRel (min size 2)
       toastFiles := toastFiles.push (relid, .valid rel)
+  -- no long-named relation at all: table `t` still has a REAL reltoastrelid (16385, at offset 108) and the TOAST
+  -- relation exists — the observation recorded in Props/C08Extra.lean: the code reports nothing
+  if k == 0 then
+    let rel ← Gen.Toast.genRel (min size 2)
+    toastFiles := toastFiles.push (16385, .valid rel)
   -- a name of 63 letters: bytes 44..47 spell a relation id nobody has a file for
   if ← Gen.prob 1 3 then
     rows := rows.push ⟨{ oid, name := List.replicate 63 122, kind := 114, filenode := oid }, liveMask⟩
@@ -311,7 +319,9 @@ def extraGen (seed idx size : Nat) : Case :=
     let fs := Spec.filesOf c.cluster
     let m := analyzeModel c.dbName fs
     let nfound := (m.splitOn "/").length / 3
+    let ignored := m == "ok:" && c.toastFiles.any fun (_, tf) => match tf with | .valid rel => !rel.lay.liveRows.isEmpty | _ => false
     mkCase "analyze" ([s!"found={min nfound 3}", (if c.specKnown then "toast=valid" else "toast=damaged")] ++
+                      (if ignored then ["obs=reltoastrelid-ignored"] else []) ++
                       (if m == "err" then ["res=err"] else []) ++ (if nfound > 0 then ["nt"] else []))
       m (if c.specKnown then analyzeSpec c else m) (hexOf c.dbName :: files fs)
   | 3 =>
